@@ -163,6 +163,20 @@ class _DropAnn(ast.NodeTransformer):
         return n
 
 
+    def visit_Assign(self, n):
+        # a, b = e1, e2  ->  a = e1; b = e2     when no later right-hand side reads an earlier target
+        if self.depth > 0 and len(n.targets) == 1 and isinstance(n.targets[0], ast.Tuple) and isinstance(n.value, ast.Tuple) \
+                and len(n.targets[0].elts) == len(n.value.elts) >= 2 and all(isinstance(t, ast.Name) for t in n.targets[0].elts):
+            names = [t.id for t in n.targets[0].elts]
+            ok = True
+            for j, e in enumerate(n.value.elts):
+                used = {x.id for x in ast.walk(e) if isinstance(x, ast.Name)}
+                if used & set(names[:j]):
+                    ok = False
+            if ok:
+                return [ast.copy_location(ast.Assign([t], e), n) for t, e in zip(n.targets[0].elts, n.value.elts)]
+        return n
+
     def visit_AugAssign(self, n):
         # X += [a, b]  ->  X.append(a); X.append(b)        X |= {a}  ->  X.add(a)
         if self.depth > 0 and isinstance(n.target, ast.Name):
